@@ -94,6 +94,10 @@ func init() {
 					}
 				}
 			}
+			// lines that consist of blanks or tabs only (they count as lines for both programs) among ordinary lines
+			for _, crlf := range []bool{false, true} {
+				out = append(out, c17Spec{Kind: "wsline", CRLF: crlf})
+			}
 			// one very long line (many arguments) among short ones: lengths around the 4 KiB and 8 KiB buffer sizes of the
 			// standard readers, and up to just below the 64 KiB line limit of the simulator's scanner
 			for _, crlf := range []bool{false, true} {
@@ -189,9 +193,9 @@ func c17Exec(bin, file string, r c17Range, conc int) ([]int, error) {
 		if err != nil {
 			return nil, fmt.Errorf("simulator exit: %v: %.300s", err, out.String())
 		}
-	case <-time.After(120 * time.Second):
+	case <-time.After(c17Deadline):
 		cmd.Process.Kill()
-		return nil, fmt.Errorf("simulator did not terminate within 120 s on range %d-%d", r.a, r.b)
+		return nil, fmt.Errorf("simulator did not terminate within %v on range %d-%d", c17Deadline, r.a, r.b)
 	}
 	s := out.String()
 	i := strings.Index(s, "Error Summary:")
@@ -209,6 +213,13 @@ func c17Exec(bin, file string, r c17Range, conc int) ([]int, error) {
 	}
 	return ids, nil
 }
+
+// c17WsLines: number of lines of the file under judgement that consist of blanks and tabs only. Both programs count them
+// as lines; the simulator runs such a line as a run without arguments, which fails with an error of its own.
+var c17WsLines = 0
+
+// c17Deadline: non-termination deadline per simulator call (normal duration of these calls: below 0.1 s)
+var c17Deadline = 120 * time.Second
 
 // c17Judge evaluates one (file, K) case. exec: also run every range through the simulator.
 func c17Judge(c *mc.Ctx, calc, sim, file string, nonEmpty, k int, execute bool, label, cls string) {
@@ -269,8 +280,23 @@ func c17Judge(c *mc.Ctx, calc, sim, file string, nonEmpty, k int, execute bool, 
 	}
 	sort.Ints(ran)
 	ok := len(ran) == nonEmpty
-	for i := 0; ok && i < len(ran); i++ {
-		ok = ran[i] == i+1
+	if c17WsLines > 0 {
+		// the lines of blanks show up as failed runs that name no line; the others must be the remaining positions, once each
+		ws := 0
+		seen := map[int]bool{}
+		for _, id := range ran {
+			if id == -1 {
+				ws++
+			} else if seen[id] || id < 1 || id > nonEmpty {
+				ok = false
+			}
+			seen[id] = true
+		}
+		ok = ok && ws == c17WsLines
+	} else {
+		for i := 0; ok && i < len(ran); i++ {
+			ok = ran[i] == i+1
+		}
 	}
 	if !ok {
 		c.Violate("executed-lines-not-exactly-once"+cls, fmt.Sprintf("%s (%d non-empty lines) K=%d: ranges %q executed line ids %v", label, nonEmpty, k, list, ran), nil)
@@ -344,6 +370,62 @@ func c17Run(raw json.RawMessage, c *mc.Ctx) {
 				c17Judge(c, calc, sim, file, ne, k, c.Tier == "thorough" || (si+k+c.Seed)%4 == 0, fmt.Sprintf("file %q", content), cls)
 			}
 		}
+		c.Sample(sp)
+	case "wsline":
+		eol := "\n"
+		cls := " LF blank-character-lines"
+		if sp.CRLF {
+			eol, cls = "\r\n", " CRLF blank-character-lines"
+		}
+		// all sequences of 1..4 lines over {line of blanks, line of a tab, ordinary line} with at least one ordinary line
+		stop := false
+		var rec func(cur []int)
+		rec = func(cur []int) {
+			if len(cur) > 0 && !stop {
+				var b strings.Builder
+				ws, real := 0, 0
+				for i, t := range cur {
+					switch t {
+					case 0:
+						b.WriteString("   " + eol)
+						ws++
+					case 1:
+						b.WriteString("\t" + eol)
+						ws++
+					default:
+						b.WriteString(c17Line(i+1, false) + eol)
+						real++
+					}
+				}
+				if ws > 0 && real > 0 {
+					os.WriteFile(file, []byte(b.String()), 0o644)
+					c17WsLines = ws
+					nv := len(c.Viol)
+					c17Deadline = 20 * time.Second // (200 times the normal duration of these calls)
+					for _, k := range []int{1, 2, 3} {
+						if len(c.Viol) > nv {
+							break
+						}
+						h := mc.NewHasher().S("wsline").S(fmt.Sprint(cur)).I(k).S(cls).Sum()
+						c.State(h)
+						c.NonTrivial(h)
+						c17Judge(c, calc, sim, file, len(cur), k, true, fmt.Sprintf("file %q", b.String()), cls)
+					}
+					c17WsLines = 0
+					c17Deadline = 120 * time.Second
+					if len(c.Viol) > nv {
+						stop = true // one failing file is enough; a hanging simulator costs a deadline per call
+					}
+				}
+			}
+			if len(cur) == 4 || stop {
+				return
+			}
+			for t := 0; t < 3; t++ {
+				rec(append(append([]int{}, cur...), t))
+			}
+		}
+		rec(nil)
 		c.Sample(sp)
 	case "longline":
 		eol := "\n"
